@@ -392,7 +392,13 @@ const never = int64(1<<63 - 1)
 // pending (or only timers at "never").
 func (ex *Exec) advanceTime() bool {
 	var min int64 = never
+	quiescing := len(ex.gs) > 0 && ex.gs[0].status == gBlocked && ex.gs[0].waitFor == "quiesce"
 	for _, t := range ex.timers {
+		if quiescing && t.period > 0 {
+			// while the harness waits for quiescence, free-running tickers do not
+			// count as pending work (a leaked ticker would never let it end)
+			continue
+		}
 		if t.active && t.deadline < min {
 			min = t.deadline
 		}
